@@ -2,7 +2,7 @@
 import re
 from props import _index_fields as ixf
 from gx import tab
-from gx.flow import Flow, comparisons
+from gx.flow import Flow, comparisons, upper_bounded_edges
 
 TECHNIQUE = "field-sequence agreement between the entry writer and the entry reader, shared-constant and arithmetic-signature checks for path-length saturation and padding, extension signature table agreement"
 EXPLANATION = ("The ordered sequence of stat/mode fields that Entry::write_to emits as big-endian integers is extracted from MIR and must equal the "
@@ -31,8 +31,35 @@ def run(db, chk):
     wu = {f.name for k in pl for f, bi, ctx in uses[k]}
     chk.ob("path-len-saturation", "writer uses Flags::PATH_LEN", w.name in wu, "", "%s:%d" % (w.file, w.line), key="path-len|writer")
     chk.ob("path-len-saturation", "reader uses Flags::PATH_LEN", r.name in wu, "", "%s:%d" % (r.file, r.line), key="path-len|reader")
-    ge = [c for c in comparisons(w) if c["op"] in ("Ge", "Gt", "Lt", "Le")]
-    chk.ob("path-len-saturation", "writer compares path.len() with the limit", bool(ge), "", "%s:%d" % (w.file, w.line), key="path-len|cmp")
+    # the path length is saturated in the wide type: a truncating `as` cast to a narrower integer of a value derived from len() must be
+    # cut off by an upper-bounding comparison on a len-derived value, or take its operand from min()/clamp() (checked conversions are fine)
+    wfl = Flow(w)
+    WIDTH = {"u8": 8, "u16": 16, "u32": 32, "i8": 8, "i16": 16, "i32": 32}
+    n_len = len(w.calls_to(r"::len$"))
+    chk.floor("path.len() in Entry::write_to", n_len, 1)
+    for bi, si, pl_, rv, ln, mc in w.assigns():
+        if rv[0] != "cast" or rv[1] != "IntToInt" or rv[3] not in WIDTH or "p" not in rv[2]:
+            continue
+        src_ty = w.locals[rv[2]["p"][0]] if isinstance(rv[2]["p"][0], int) else ""
+        if src_ty not in ("usize", "u64", "u128") :
+            continue
+        roots = wfl.roots(rv[2], stop_named=False, sites=True)
+        if not any(r[0] == "call" and r[1].endswith("::len") for r in roots):
+            continue
+        sat = any(r[0] == "call" and re.search(r"::(min|clamp)$", r[1]) for r in roots)
+        if not sat:
+            lens = {r for r in roots if r[0] == "call" and r[1].endswith("::len")}
+            for c in comparisons(w):
+                for side in ("a", "b"):
+                    if "p" not in c[side]:
+                        continue
+                    if not any(r[0] == "call" and r[1].endswith("::len") for r in wfl.roots(c[side], stop_named=False, sites=True)):
+                        continue
+                    e = upper_bounded_edges(w, c, side)
+                    if e and wfl.cut_off([bi], e):
+                        sat = True
+        chk.ob("path-len-saturation", "narrowing of path.len() to %s is bounded first" % rv[3], sat,
+               "`len as %s` truncates before any bound is applied: a path of 65536+k bytes is recorded as k" % rv[3], "%s:%d" % (w.file, ln), key="path-len|narrowing")
     c = db.consts.get([k for k in db.consts if k.endswith("Flags::PATH_LEN")][0]) if [k for k in db.consts if k.endswith("Flags::PATH_LEN")] else None
     # padding
     ent = db.one(r"^gix_index::write::entries$")
